@@ -64,7 +64,7 @@ type st = {
   mutable tracked : (ZZ.t * d list) list;     (* (leaf index, membership proof), in hand-over order *)
 }
 
-let spec_path st i = path h dflt st.ls i
+let spec_path st i = if ZZ.geq i (zlength st.ls) || ZZ.lt i ZZ.zero then [] else path h dflt st.ls i
 let leaf_at st i = List.nth st.ls (ZZ.to_int i)
 let count st = zlength st.ls
 
